@@ -223,4 +223,8 @@ Section WithHash.
         end
       end
     end.
+  (* the command as the CLI runs it: the index is read first, and an index that lists a stage file
+     outside the project is refused before anything is done *)
+  Definition step_checked (w : world) (cmd : command) : world * bool * output :=
+    if forallb index_line_ok (w_index w) then step w cmd else (w, false, ONone).
 End WithHash.
